@@ -11,6 +11,7 @@ use rpki::uri;
 use rpki::crypto::DigestAlgorithm;
 use rpki::rrdp::{DeltaInfo, DeltaListError, NotificationFile};
 use tempfile::NamedTempFile;
+use uuid::Uuid;
 use crate::collector::rrdp::http::LimitedDataRead;
 use crate::config::Config;
 use crate::error::{Fatal, RunFailed};
@@ -1022,6 +1023,25 @@ impl<'a> RepositoryUpdate<'a> {
         };
 
         if !deltas.is_empty() {
+            // The deltas are applied to the archive in place. Should the
+            // update be abandoned half-way, the archive must not pass for
+            // the copy its stored state describes. So invalidate the state
+            // first: with a nil session and without validators or delta
+            // hashes the next update can only take the snapshot.
+            let mut dirty = state.clone();
+            dirty.session = Uuid::nil();
+            dirty.etag = None;
+            dirty.last_modified_ts = None;
+            dirty.delta_state.clear();
+            if let Err(err) = archive.update_state(&dirty) {
+                if err.should_retry() {
+                    return Ok(Some(SnapshotReason::CorruptArchive))
+                }
+                else {
+                    return Err(err)
+                }
+            }
+
             let count = deltas.len();
             for (i, info) in deltas.iter().enumerate() {
                 self.log.debug(format_args!(
